@@ -54,8 +54,11 @@ pub open spec fn cfun(c: v1::Constraint) -> v1::Function { match c.function { So
     asm.file('spec/qubo_spec.rs')
     asm.raw('} // mod lib\npub mod units {\n' + common.UNITS_USES + 'use super::lib::v1::instance::Sense;\nbroadcast use super::lib::ax_zero_f64, super::lib::ax_binary_ids_cmp, super::lib::ax_binary_id_pair_cmp;\n')
     asm.raw(fn_stubs.ZERO + qubo.STUBS, 'assumed callee contracts')
-    for n in ('Function::zero', 'Instance::binary_ids', 'Function::used_decision_variable_ids (C08)', 'IntoIterator for &Function (term iterator)', 'TryFrom<SortedIds> for BinaryIdPair'):
-        asm.stubs.append(dict(unit=n, proved_in=''))
+    for n, where in (('Function::zero', 'C02'), ('Instance::binary_ids', 'assumed (iterator filter/collect)'),
+                     ('Function::used_decision_variable_ids (C08)', 'C08 for Constant/Linear and the dispatch; the Quadratic/Polynomial collects are assumed there'),
+                     ('IntoIterator for &Function (term iterator)', 'assumed (Box<dyn Iterator>: outside the dialect; precondition fn_coo_ok); exercised by the bounded stand-in'),
+                     ('TryFrom<SortedIds> for BinaryIdPair', 'assumed (slice patterns: outside Verus); exercised by the bounded stand-in')):
+        asm.stubs.append(dict(unit=n, proved_in=where))
     for u in (ev.instance_objective(), qubo.binary_ids_from_sorted(), qubo.as_pubo_format(), qubo.as_qubo_format()):
         asm.unit(u)
     asm.raw('} // mod units\n')
@@ -78,6 +81,6 @@ proof fn vacuity_axioms(f: v1::Function, x: Map<u64, F64>, a: BinaryIds, b: Bina
             'T4: BTreeMap::entry(k).and_modify(|v| *v += c).or_insert(c) as the helper btreemap_add_or_insert; BinaryIds / BinaryIdPair obey the BTreeMap key model; a BinaryIds value is determined by the set it holds (ax_binary_ids_ext, ax_bkey)',
             'T5 ASSUMED: the term list of &Function is a function of the message whose terms sum to the polynomial (fterms, ax_fterms_sum)',
         ],
-        assumptions=common.A1,
+        assumptions=common.A1 + common.A_COO,
         not_covered=['QUBO refusal for monomials with more than two distinct variables (inside the assumed BinaryIdPair::try_from)', 'the size of the explicit remainders qrem / prem (terms skipped or entries removed because numerically zero)'],
     )
